@@ -564,14 +564,16 @@ namespace c16
   // generates the mesh of a case: structured mesh, then (optionally) interior distortion, affine image, local re-orientation
   // of every cell, renumbering of cells and vertices
   template<typename Shape_>
-  void gen_env(Ctx& c, Env<Shape_>& e, Index cap)
+  void gen_env(Ctx& c, Env<Shape_>& e, Index cap, bool hostile_boundary = false)
   {
     double h = 0;
     e.spec = MeshGen<Shape_>::make(c, cap, h);
     c.tag(std::string("shape:") + vm::ShapeInfo<Shape_>::name());
     if(h > 0 && c.rng.coin(0.5)) vm::distort_interior(e.spec, c.rng, h, c.rng.coin() ? 0.15 : 0.3);
+    // general (non-parallelogram) but still flat boundary facets: the facet Jacobian is no longer constant
+    if(h > 0 && (c.rng.coin(0.4) || hostile_boundary)) vm::distort_boundary_tangential(e.spec, c.rng, h, c.rng.coin() ? 0.15 : 0.3);
     if(c.rng.coin(0.4)) vm::affine_map(e.spec, c.rng);
-    if(c.rng.coin(0.6)) vm::reorient_cells(e.spec, c.rng);
+    if(c.rng.coin(0.6) || hostile_boundary) vm::reorient_cells(e.spec, c.rng);
     if(c.rng.coin(0.5)) vm::permute_cells(e.spec, c.rng);
     if(c.rng.coin(0.5)) vm::permute_vertices(e.spec, c.rng);
     for(auto& t : e.spec.tags) c.tag(t);
